@@ -100,7 +100,7 @@ def run(ctx):
     variants[0]["shape"], variants[1 % nvar]["shape"] = "chain", "diamond"
     progs = [gen_xpkg.build(v, "C06_%d" % i) + (v,) for i, v in enumerate(variants)]
     variants[0]["unsafe"], variants[1 % nvar]["unsafe"] = True, False
-    allp = ["m/d", "m/u", "m/w"]
+    allp = ["m/d", "m/u", "m/w", "m/dotu"]
     subsets = [list(c) for k in (1, 2, 3) for c in itertools.combinations(allp, k)]
     runs = mism = 0
     samples = []
@@ -113,7 +113,7 @@ def run(ctx):
             for prog, exp, v in progs:
                 for sub in subsets:
                     p2 = dict(prog)
-                    p2["id"] = "%s_%s" % (prog["id"], "".join(s[-1] for s in sub))
+                    p2["id"] = "%s_%s" % (prog["id"], "+".join(s.split("/")[-1] for s in sub))
                     p2["named"] = sub
                     items.append((p2, restrict(exp, sub), {"variant": v, "named": sub, "driver": "inproc", "sequential": seq, "gob": sanity}))
             rep = progcheck.Replay(ctx, None)
@@ -144,10 +144,10 @@ def run(ctx):
 
     def one(j):
         prog, exp, v, sub, drv = j
-        tr = os.path.join(ctx.scratch, "tr_%s_%s_%s.ndjson" % (prog["id"], "".join(s[-1] for s in sub), drv))
+        tr = os.path.join(ctx.scratch, "tr_%s_%s_%s.ndjson" % (prog["id"], "+".join(s.split("/")[-1] for s in sub), drv))
         env = {"VERIF_TRACE": tr, "VERIF_TRACE_PREFIX": "m/"}
         p2 = dict(prog)
-        p2["id"] = prog["id"] + drv + "".join(s[-1] for s in sub)
+        p2["id"] = prog["id"] + drv + "+".join(s.split("/")[-1] for s in sub)
         if drv == "binary":
             r = proglib.run_binary(ctx, p2, named=sub, binary=gg, extra_env=env)
             r0 = proglib.run_binary(ctx, p2, named=sub, binary=real)   # the unmodified binary must agree with the instrumented one
